@@ -293,7 +293,7 @@ func rebuildOnOpen(c *Ctx, rule string) {
 	readerBufferDiscipline(c, rule, []string{"balloon/hyper"})
 	// RebuildCache: every tile read is put into the cache and its index collected; the loop ends only on n==0 or error
 	var put, app bool
-	eachInstr(rebuild, func(in ssa.Instruction) {
+	p.RegionOf(rebuild, 2).Instrs(func(_ regionSite, in ssa.Instruction) {
 		cc := callCommon(in)
 		if cc == nil {
 			return
